@@ -101,6 +101,17 @@ func loadWorld() *world {
 		x.funcs[f.Name] = f.Entry
 		x.fnames = append(x.fnames, f.Name)
 	}
+	// a name carried by several symbols (a C variable and an assembly function both called setg_gcc with external
+	// linking, local symbols of different objects) has no single "address of that symbol"
+	nameCount := map[string]int{}
+	for _, s := range im.Symbols {
+		nameCount[s.Name]++
+	}
+	for n, k := range nameCount {
+		if k > 1 {
+			x.vdup[n] = true
+		}
+	}
 	for _, s := range im.Symbols {
 		switch elf.ST_TYPE(s.Info) {
 		case elf.STT_OBJECT:
